@@ -14,6 +14,19 @@ CHECKS = {
     note="ids/versions/timestamps are rank tokens instantiated with the boundary values of the property's grid; values "
          "between the grid points are not enumerated. Triple laws are proved at spec level and transferred through the complete pair matrix.",
     technique="TLA+ spec + TLC exhaustive check; spec-to-code replay of the TLC-exported comparison matrix and CheckOrder sequences"),
+ "C19": dict(
+    category="model_checking",
+    text="TLC explores every interleaving of specs/ThreadQueue.tla (one action per critical section of queue.hpp/pool.hpp, "
+         "the unlocked m_in_use accesses and condition-variable waits as separate steps) for FIFO/no-loss/no-duplicate while "
+         "in use, the size bound, deadlock freedom, liveness under weak fairness (shutdown wakes every consumer; pool "
+         "terminates), and exactly-once task execution. Executions of the real Queue/Pool recorded through OSMIUM_VERIF "
+         "hooks at the linearization points under a seeded schedule perturbation are validated against the spec "
+         "(ThreadQueueTrace.tla), every invariant evaluated at every step.",
+    design_ref="DESIGN.md section 4, C19",
+    note="All interleavings are enumerated on the spec (2-3 threads per role, 2-4 items); on the real code schedules are "
+         "perturbed and every observed execution validated, not enumerated. Trusted: std::mutex/condition_variable/"
+         "packaged_task semantics, the hook placement (under the queue mutex, after the change).",
+    technique="TLA+ spec + TLC (safety, deadlock, liveness); trace validation of recorded real executions against the spec"),
 }
 
 NOT_APPLICABLE = {
